@@ -23,8 +23,8 @@ ORACLES = {
     "C07": ["oracle_c07", "c07_"],
     "C02": ["oracle_c02"],
     "C03": ["oracle_c03"],
-    "C04": ["oracle_c03_c04"],
-    "C14": ["oracle_c14", "oracle_c03_c04", "oracle_c01", "oracle_c02_field"],
+    "C04": ["oracle_c03_c04", "oracle_c04"],
+    "C14": ["oracle_c14", "oracle_c03_c04", "oracle_c04_step_size_survives", "oracle_c01", "oracle_c02_field"],
     # oracle_c02_hmc_step_is_L...: predicts each row's own acceptance draw from a copy of the sampler's generator, so
     # rows sharing one acceptance draw (C08: distinct acceptance draws per chain) fail it
     "C08": ["oracle_c08", "c08_", "oracle_c02_hmc_step_is_L"],
